@@ -154,6 +154,10 @@ pub const CHAIN_POINTS: &[&str] = &[
     "chain::before_verify_block",
     "chain::between_commit_and_store_snapshot",
     "chain::after_store_snapshot",
+    // inside Shared::refresh_snapshot, between building the refreshed snapshot and publishing it
+    // (hook H4b): the published snapshot has one publisher, the verify thread; a second publisher
+    // would be exposed by a delay here
+    "shared::refresh_snapshot_before_store",
 ];
 
 /// A seeded plan over the chain points: each point independently gets no delay, yields, or
